@@ -345,8 +345,9 @@ func evaluateOperatorValue(node *ExprNode, data map[string]any) (any, error) {
 		return nil, err
 	}
 
-	// If any operand is NULL, result is NULL
-	if leftIsNull || rightIsNull {
+	// If any operand is NULL, result is NULL. A nested arithmetic operand that was
+	// NULL arrives as a nil value without the flag, so the value is tested as well.
+	if leftIsNull || rightIsNull || left == nil || right == nil {
 		return nil, nil
 	}
 
